@@ -4,17 +4,20 @@
 (* override_configuration (layer M) against P on each.                                             *)
 EXTENDS Config, TLC, Json
 CONSTANTS Discoveries
-VARIABLES cliP, fileP, disc
+VARIABLES cliP, fileP, disc, cliE
 
-Init == cliP \in SUBSET Settings /\ fileP \in SUBSET Settings /\ disc \in Discoveries
-Next == UNCHANGED <<cliP, fileP, disc>>
+\* cliE: at most one setting whose option is given with an EMPTY value (prefixes only: an empty package is a refusal, C07)
+Init == /\ cliP \in SUBSET Settings /\ fileP \in SUBSET Settings /\ disc \in Discoveries
+        /\ cliE \in {{}} \cup {{s} : s \in {"swift_prefix", "kotlin_prefix"} \ cliP}
+        /\ (cliE # {} => disc = "flag")
+Next == UNCHANGED <<cliP, fileP, disc, cliE>>
 
 Val(src, s) == src \o "_" \o s          \* distinguishable values, e.g. "cli_swift_prefix"
-Cli == [s \in Settings |-> IF s \in cliP THEN Val("cli", s) ELSE Absent]
+Cli == [s \in Settings |-> IF s \in cliE THEN GivenEmpty ELSE IF s \in cliP THEN Val("cli", s) ELSE Absent]
 File == [s \in Settings |-> IF s \in fileP THEN Val("file", s) ELSE Absent]
 
 \* layer M: cli/src/main.rs override_configuration - starts from the loaded file, overwrites when the option is Some
-MOverride == [s \in Settings |-> IF Cli[s] # Absent THEN Cli[s] ELSE File[s]]
+MOverride == [s \in Settings |-> IF Cli[s] = GivenEmpty THEN Absent ELSE IF Cli[s] # Absent THEN Cli[s] ELSE File[s]]
 ModelAgrees == MOverride = Effective(Cli, File)
 
 \* discovery: the file named by -c ("flag"), or typeshare.toml found in the working directory / an ancestor. In the
